@@ -308,9 +308,15 @@ class RSym(rx.Sym):
                     raise Untranslatable("if condition is not a bool")
                 if e[3] is not None or e[2][2] is not None:
                     raise Untranslatable("if/else or valued if in statement position")
+                cn = fold(c.n)
+                if cn.op == "bconst" and not self.diverges(e[2]):
+                    # a condition on the table's constants: the block runs or it does not
+                    if cn.k:
+                        for s2 in e[2][1]:
+                            self.exec_stmt(s2)
+                    return
                 if not self.diverges(e[2]):
                     raise Untranslatable("conditional block that falls through")
-                cn = fold(c.n)
                 saved = self.path
                 self.path = band(saved, cn)
                 for s2 in e[2][1]:
